@@ -412,11 +412,17 @@ def run(ck):
     ck.section("replay", histories=len(results))
     from checks import c03_trace
     c03_trace.validate(ck, traces)
+    # further object families with state between calls (GPCacheExt.tla)
+    from checks import c03_ext
+    c03_ext.run_ext(ck)
 
 
 def replay(rep):
     core.setup_torch()
     case = rep["case"]
+    if case.get("ext"):
+        from checks import c03_ext
+        return c03_ext.replay_ext(rep)
     fail, compared, _ = run_history(case["family"], case["ops"], case["seed"])
     if fail:
         print("VIOLATION property=C03 replay=- :: %s :: %s" % (signature(case["family"], case["ops"], fail), fail))
